@@ -21,13 +21,27 @@ ASSUMPTIONS = ["model decoder and model scalar multiplication (vf/model/bls12381
                "condition; everything else is a round trip through the library itself"]
 ENGINE = "hypothesis"
 TECHNIQUE = ("property-based testing (Hypothesis): sign/verify and prove/verify round trips through the public API with an independent-model side condition on the public key")
-_REQ = ["rt:sk=curve_parameter_related", "rt:basic", "rt:aug", "rt:pop", "pop", "reject:int", "reject:type", "reject:numeric_twin_after_use", "keygen", "rt:sk=boundary",
+_REQ = ["rt:keyword_arguments", "reject:keyword_argument", "rt:sk=curve_parameter_related", "rt:basic", "rt:aug", "rt:pop", "pop", "reject:int", "reject:type", "reject:numeric_twin_after_use", "keygen", "rt:sk=boundary",
         "rt:sk>=200b", "rt:msg=empty", "rt:msg=56-64", "rt:msg=65-1024"]
 REQUIRED_LABELS = {"quick": _REQ, "thorough": _REQ + ["rt:msg=>1KiB"]}
 
 
 def selfcheck():
     B.selfcheck()
+
+
+def kwcall(fn, *values):
+    """fn(name0=values[0], name1=values[1], ...) with the parameter names read from the function's own signature
+    (so a renamed parameter is followed); None if the signature has no named positional parameters."""
+    import inspect
+    try:
+        ps = [p for p in inspect.signature(fn).parameters.values()
+              if p.kind in (p.POSITIONAL_OR_KEYWORD, p.KEYWORD_ONLY)]
+    except (TypeError, ValueError):
+        return None
+    if len(ps) < len(values):
+        return None
+    return lambda: fn(**{p.name: v for p, v in zip(ps, values)})
 
 
 def o_roundtrip(ctx, case):
@@ -48,6 +62,12 @@ def o_roundtrip(ctx, case):
     ctx.check(ok is True, "roundtrip", "honest_signature_rejected", case,
               f"{S.__name__}.Verify(SkToPk(sk), m, Sign(sk, m)) = {ok!r}")
     ctx.check(S.KeyValidate(pk) is True, "roundtrip", "honest_key_invalid", case, "KeyValidate(SkToPk(sk)) is not True")
+    # the same calls with the arguments passed by name: the calling convention cannot change a result
+    k1, k2 = kwcall(S.SkToPk, sk), kwcall(S.Verify, pk, msg, sig)
+    if k1 is not None and k2 is not None:
+        ctx.check(k1() == pk, "roundtrip", "keyword_call", case, "SkToPk with the key passed by name differs")
+        ctx.check(k2() is True, "roundtrip", "keyword_call", case, "Verify with arguments passed by name is not True")
+        ctx.label("rt:keyword_arguments")
     ctx.label(f"rt:{suite}")
     c = sc.sk_class(sk)
     ctx.label("rt:sk=boundary" if c == "boundary" else ("rt:sk=curve_parameter_related" if c == "curve_parameter_related" else f"rt:sk{c}"))
@@ -129,6 +149,17 @@ def o_reject(ctx, case):
     # any other exception type propagates and is reported as exception:<Type>
     ctx.check(out is ValidationError, "reject", "bad_key_accepted", case,
               f"{S.__name__}.{entry}({bad!r}) returned {out!r} instead of raising ValidationError")
+    # and with the key passed by its parameter name
+    kw = {"SkToPk": lambda: kwcall(S.SkToPk, bad), "Sign": lambda: kwcall(S.Sign, bad, b"message"),
+          "PopProve": lambda: kwcall(S.PopProve, bad)}[entry]()
+    if kw is not None:
+        try:
+            out = kw()
+        except ValidationError:
+            out = ValidationError
+        ctx.check(out is ValidationError, "reject", "bad_key_accepted_by_name", case,
+                  f"{S.__name__}.{entry} with the key {bad!r} passed BY NAME returned {out!r} instead of raising ValidationError")
+        ctx.label("reject:keyword_argument")
     ctx.label("reject:int" if "bad_int" in case else "reject:type")
     ctx.nontrivial(("x", suite, entry, repr(bad)))
     ctx.sample(case, f"reject:{entry}:{'int' if 'bad_int' in case else 'type'}")
